@@ -19,6 +19,16 @@ package scen
 // of the repository enters a rule (the time-advance menu straddles the
 // time-outs, but no rule depends on them).
 //
+// Failure shapes: the error a failing dial / request returns is a drawn choice
+// (c12FailErr): a plain error, or an error that is / wraps / joins
+// context.DeadlineExceeded or context.Canceled, or an i/o time-out
+// (net.Error, Timeout() == true) — what a per-request deadline inside a
+// message sender, a stream-negotiation time-out or the swarm's dial time-out
+// produce while the context of the calling lookup is alive. The property
+// speaks of the *lookup* being cancelled, not of what the error looks like, so
+// every eviction / non-admission rule is the same for all shapes: what counts
+// is whether the call's own context was live when it was failed.
+//
 // crypto/rand: the refresh manager draws its per-bucket keys from
 // crypto/rand (kbucket.GenRandPeerID). The keys decide which members a refresh
 // lookup asks first, so normalising park labels would not be enough; the
@@ -29,8 +39,10 @@ package scen
 import (
 	"context"
 	crand "crypto/rand"
+	"errors"
 	"fmt"
 	"io"
+	"os"
 	"sort"
 	"strings"
 	"sync"
@@ -57,6 +69,7 @@ func init() {
 		sc.Stub = []string{"host.Host/network (simhost)", "pb.MessageSender (level A, simnet.Sender)", "remote peers (scripted)", "identify (events emitted by the simulator)", "crypto/rand.Reader (tape-seeded for the run)"}
 		sc.Faults = []string{
 			"fault_dial_fail", "fault_rpc_error", "fault_cancel_lookup", "fault_close_mid_refresh", "fault_proto_removed", "fault_disconnect", "fault_lying_reply", "time_advance", "cancel_observed",
+			"fault_ctx_shaped_error_live_call", "probe_evict_ctx_shaped_fail",
 			"probe_admit_via_probe", "probe_admit_via_lookup", "probe_evict_lookup_fail", "probe_cancel_no_evict", "probe_evict_proto_removed", "probe_evict_refresh_probe",
 			"probe_refresh_answered_during_close", "probe_filter_rejected_proven", "probe_refresh_batched", "probe_refresh_after_close", "probe_proven_not_admitted", "probe_zero_peer_reply",
 		}
@@ -213,6 +226,7 @@ type c12Obl struct {
 	absent bool   // true: must be absent now; false: must still be a member if it was one
 	rule   string // oracle rule id
 	probe  string // stats key counted when the obligation was met non-vacuously
+	extra  string // a second such key (optional)
 	what   string
 }
 
@@ -486,6 +500,9 @@ func (w *c12World) observe() {
 			s.Violate(o.rule, "%s: %s is still a routing-table member at the next quiescent point", o.what, w.name(o.peer))
 		case o.absent && w.prev[o.peer]:
 			s.Count(o.probe)
+			if o.extra != "" {
+				s.Count(o.extra)
+			}
 		case !o.absent && o.rule == "":
 			if w.prev[o.peer] && now[o.peer] {
 				s.Count(o.probe) // observation only
@@ -632,6 +649,26 @@ func (w *c12World) releaseAction(p *sim.Parked, observeCancel bool) sim.Action {
 			f := s.Chance(label, w.cfg.FailEighths, 8)
 			return (f || mustFail) && !mustOK
 		}
+		// the shape of the failure is a drawn choice; no rule depends on it
+		shaped := false
+		failWith := func(what string, plain error) error {
+			err, shape := c12FailErr(s, what, plain)
+			if shape != 0 {
+				shaped = true
+				if live {
+					s.Count("fault_ctx_shaped_error_live_call")
+				}
+				s.Tracef("  failure shape %d: %v", shape, err)
+			}
+			return err
+		}
+		absent := func(rule, probe, what string) {
+			n := len(w.obl)
+			w.mustBeAbsent(c.to, rule, probe, what)
+			if shaped && len(w.obl) > n {
+				w.obl[n].extra = "probe_evict_ctx_shaped_fail"
+			}
+		}
 		switch {
 		case observeCancel:
 			s.ReleaseCancelled(p)
@@ -647,14 +684,15 @@ func (w *c12World) releaseAction(p *sim.Parked, observeCancel bool) sim.Action {
 		case p.Kind == "dial":
 			if fails("dial-fail") {
 				s.Count("fault_dial_fail")
-				s.Release(p, simhost.ErrDialFailed)
+				ferr := failWith("dial "+who, simhost.ErrDialFailed)
+				s.Release(p, ferr)
 				if lk != nil {
 					lk.searchPending[c.to] = false
 				}
 				if live && c.tag != "" {
-					w.mustBeAbsent(c.to, "lookup-fail-not-evicted", "probe_evict_lookup_fail", fmt.Sprintf("the dial to %s failed in client lookup %s while its context was live", who, c.tag))
+					absent("lookup-fail-not-evicted", "probe_evict_lookup_fail", fmt.Sprintf("the dial to %s failed (error %q) in client lookup %s while its context was live", who, ferr, c.tag))
 				} else if live {
-					w.mustBeAbsent(c.to, "refresh-dial-fail-not-evicted", "probe_evict_refresh_probe", fmt.Sprintf("a dial to %s made by the refresh (liveness probe or refresh lookup) failed while its context was live", who))
+					absent("refresh-dial-fail-not-evicted", "probe_evict_refresh_probe", fmt.Sprintf("a dial to %s made by the refresh (liveness probe or refresh lookup) failed (error %q) while its context was live", who, ferr))
 				}
 			} else {
 				s.Release(p, nil)
@@ -663,12 +701,13 @@ func (w *c12World) releaseAction(p *sim.Parked, observeCancel bool) sim.Action {
 			r := p.Data.(*simnet.RPC)
 			if fails("rpc-fail") {
 				s.Count("fault_rpc_error")
-				s.Release(p, simnet.Reply{Err: errReqFailed})
+				ferr := failWith("request to "+who, errReqFailed)
+				s.Release(p, simnet.Reply{Err: ferr})
 				if live && c.search {
-					w.mustBeAbsent(c.to, "lookup-fail-not-evicted", "probe_evict_lookup_fail", fmt.Sprintf("the search-phase request to %s failed in client lookup %s while its context was live", who, c.tag))
+					absent("lookup-fail-not-evicted", "probe_evict_lookup_fail", fmt.Sprintf("the search-phase request to %s failed (error %q) in client lookup %s while its context was live", who, ferr, c.tag))
 				}
 				if live && c.ping {
-					w.mustBeAbsent(c.to, "probe-fail-not-evicted", "probe_evict_refresh_probe", fmt.Sprintf("the refresh's liveness probe to member %s failed", who))
+					absent("probe-fail-not-evicted", "probe_evict_refresh_probe", fmt.Sprintf("the refresh's liveness probe to member %s failed (error %q)", who, ferr))
 				}
 				if live && c.tag != "" && !c.search && !c.probeKey {
 					// a follow-up request of a client lookup (no Request event announced
@@ -689,6 +728,34 @@ func (w *c12World) releaseAction(p *sim.Parked, observeCancel bool) sim.Action {
 			}
 		}
 	}}
+}
+
+// c12FailErr draws the error with which a dial / request fails. Shape 0 is the
+// plain error; the others are what time-outs and cancellations *below* the
+// lookup (a per-request deadline in the message sender, stream negotiation, the
+// swarm's dial time-out, a transport's read deadline) look like to the caller
+// while the caller's own context is alive.
+func c12FailErr(s *sim.Sim, what string, plain error) (error, int) {
+	shape := s.Draw("fail-shape", 8)
+	switch shape {
+	case 1:
+		return fmt.Errorf("%s: %w", what, context.DeadlineExceeded), shape
+	case 2:
+		return context.DeadlineExceeded, shape
+	case 3:
+		return fmt.Errorf("%s: %w", what, context.Canceled), shape
+	case 4:
+		return context.Canceled, shape
+	case 5:
+		return errors.Join(plain, context.DeadlineExceeded), shape
+	case 6:
+		// two levels of wrapping, as the swarm reports a dial time-out
+		return fmt.Errorf("failed to %s: %w", what, fmt.Errorf("all attempts failed: %w", context.DeadlineExceeded)), shape
+	case 7:
+		// an i/o time-out: a net.Error with Timeout() == true, not a context error
+		return fmt.Errorf("%s: %w", what, os.ErrDeadlineExceeded), shape
+	}
+	return plain, 0
 }
 
 func (w *c12World) parkedCalls() []*sim.Parked {
@@ -1071,7 +1138,11 @@ func (w *c12World) step() {
 
 func (w *c12World) shutdown() {
 	s := w.s
-	npost := s.Draw("post-close-refresh", 3)
+	// Refresh requests issued after Close returned: none, or a burst
+	// (RefreshRoutingTable and ForceRefresh alternating, each followed by a
+	// quiescent point, so the burst contains the single-request case). The
+	// requests of a burst are judged together (see below).
+	npost := []int{0, 24, 31}[s.Draw("post-close-refresh", 3)]
 	postForce := s.Draw("post-close-force", 2) == 1
 	if !w.closing {
 		s.Tracef("close (end of schedule)")
@@ -1132,7 +1203,7 @@ func (w *c12World) shutdown() {
 	// refresh requests after Close: answered (with an error) all the same
 	for i := 0; i < npost; i++ {
 		s.Count("probe_refresh_after_close")
-		w.requestRefresh(postForce)
+		w.requestRefresh(postForce != (i%2 == 1))
 		s.Quiesce()
 	}
 	s.Sleep(time.Minute)
@@ -1145,9 +1216,27 @@ func (w *c12World) shutdown() {
 	}
 	s.Sleep(time.Minute)
 
+	// Requests issued after Close returned are judged together and the message
+	// does not say which of them went unanswered: should an implementation make
+	// the fate of such a request depend on a choice of the Go runtime (a select
+	// with several ready cases), then which requests are lost differs from
+	// replay to replay, while "at least one of a burst" is the same in all of
+	// them for practical purposes.
+	lostAfterClose := 0
+	for _, r := range w.refreshes {
+		if n, _, _ := r.state(); r.afterClose && n == 0 {
+			lostAfterClose++
+		}
+	}
+	if lostAfterClose > 0 {
+		s.Violate("refresh-unanswered", "at least one of the %d refresh requests issued after Close returned never received a result or an error: nothing is parked and two minutes of virtual time passed", npost)
+	}
 	answered, afterClose := 0, 0
 	for _, r := range w.refreshes {
 		n, closed, _ := r.state()
+		if r.afterClose && n == 0 {
+			continue // reported above
+		}
 		kind := "RefreshRoutingTable"
 		if r.force {
 			kind = "ForceRefresh"
@@ -1175,7 +1264,9 @@ func (w *c12World) shutdown() {
 			}
 		}
 	}
-	s.Tracef("refresh requests=%d answered=%d after-close=%d", len(w.refreshes), answered, afterClose)
+	if !s.Failed() {
+		s.Tracef("refresh requests=%d answered=%d after-close=%d", len(w.refreshes), answered, afterClose)
+	}
 }
 
 // ---------------------------------------------------------------------------
